@@ -234,9 +234,10 @@ impl Pres {
 pub fn pres(nmax: usize) -> BoxedStrategy<Pres> {
     prop_oneof![
         60 => (0u8..3, vec(any::<u8>(), nmax)).prop_map(|(o, k)| Pres::Direct { offset: o * 7, order_keys: k }),
+        5 => (253u8..=255, vec(any::<u8>(), nmax)).prop_map(|(o, k)| Pres::Direct { offset: o, order_keys: k }),
         40 => Just(Pres::Iccma),
         1 => (any::<u16>(), prop_oneof![6 => 2u32..40, 3 => 250u32..262, 1 => 600u32..700]).prop_map(|(line, times)| Pres::IccmaRepeated { line, times }),
-        40 => (0u8..4, vec(any::<u8>(), nmax)).prop_map(|(s, k)| Pres::Apx { style: s, order_keys: k }),
+        40 => (prop_oneof![10 => 0u8..4, 1 => Just(4u8)], vec(any::<u8>(), nmax)).prop_map(|(s, k)| Pres::Apx { style: s, order_keys: k }),
         60 => (vec(any::<u8>(), nmax), vec(any::<u8>(), 1..=3), 0u8..3)
             .prop_map(|(k, e, r)| Pres::Sparse { order_keys: k, extra_at: e, readd: r }),
     ]
@@ -247,9 +248,10 @@ pub fn pres(nmax: usize) -> BoxedStrategy<Pres> {
 pub fn pres_compact(nmax: usize) -> BoxedStrategy<Pres> {
     prop_oneof![
         60 => (0u8..3, vec(any::<u8>(), nmax)).prop_map(|(o, k)| Pres::Direct { offset: o * 7, order_keys: k }),
+        5 => (253u8..=255, vec(any::<u8>(), nmax)).prop_map(|(o, k)| Pres::Direct { offset: o, order_keys: k }),
         40 => Just(Pres::Iccma),
         1 => (any::<u16>(), prop_oneof![6 => 2u32..40, 3 => 250u32..262, 1 => 600u32..700]).prop_map(|(line, times)| Pres::IccmaRepeated { line, times }),
-        40 => (0u8..4, vec(any::<u8>(), nmax)).prop_map(|(s, k)| Pres::Apx { style: s, order_keys: k }),
+        40 => (prop_oneof![10 => 0u8..4, 1 => Just(4u8)], vec(any::<u8>(), nmax)).prop_map(|(s, k)| Pres::Apx { style: s, order_keys: k }),
     ]
     .boxed()
 }
